@@ -151,6 +151,68 @@ Theorem C21_overlap_refuted :
   /\ s_heads (run (step true true) (before ++ reconciler ++ resume) s0) = [].
 Proof. cbv zeta. repeat split; vm_compute; reflexivity. Qed.
 
+(* ------------------------------------------------------------------ strict sequential-wins *)
+(** Strict reading of "a later sequential save of a key wins" under divergence. Within one
+    lineage the last save wins (C21_sequential_wins). At reconciliation the first head's value
+    of [k] — its causally last one — is displaced only by a value that physically sits in a
+    segment of another head that is not shared with it (C21_other_only_unshared); hence if no
+    unshared segment of the other heads holds [k] (they neither wrote [k] since the fork nor
+    had it re-recorded there by maybe_squash_with_ancestors), it survives
+    (C21_causal_max_wins). *)
+Theorem C21_other_only_unshared : forall (m : mtable) (o : table) (k v : N), wf_table o ->
+  lookup_mt (merge_in m o) k = Some v ->
+  lookup_mt m k = Some v \/ exists f, In f (walk (m_parent m) o) /\ find k f = Some v.
+Proof. exact merge_other_only_unshared. Qed.
+
+Theorem C21_causal_max_wins : forall (t0 : table) (others : list table) (k : N),
+  wf_table t0 -> Forall wf_table others ->
+  (forall o f, In o others -> In f (walk t0 o) -> ~ In k (map fst f)) ->
+  lookup (reconcile t0 others) k = lookup t0 k.
+Proof. exact reconcile_own_value_wins. Qed.
+
+(** Known finding squash-rerecords-inherited-value: the strict rule is FALSE of the current
+    code. [A] holds k0 -> 1. A writer saves k0 -> 2 on top of it ([B], causally later). A stale
+    writer that also started from [A] saves k1 -> 3 only; its save squashes with [A], so its
+    own, unshared segment [C] now physically holds the inherited k0 -> 1. Reconciling [B; C]
+    (read_dir order) returns the OLDER value 1 for k0; [C; B] returns 2. *)
+Theorem C21_strict_refuted :
+  let A := [[(0, 1)]]%N in
+  let B := save_in (mk_mt A (of_list [(0, 2)]%N)) in
+  let C := save_in (mk_mt A (of_list [(1, 3)]%N)) in
+  B = [[(0, 2)]]%N /\ C = [[(0, 1); (1, 3)]]%N
+  /\ walk B C = [[(0, 1); (1, 3)]]%N          (* nothing of C is recognised as shared *)
+  /\ lookup (reconcile B [C]) 0%N = Some 1%N  (* the causally older value wins *)
+  /\ lookup (reconcile C [B]) 0%N = Some 2%N.
+Proof. cbv zeta. repeat split; vm_compute; reflexivity. Qed.
+
+(** The same as a run of the protocol (strictly sequential sections, working lock): writer 1
+    saves k0->2 after loading A, stale writer 2 saves k1->3 from A, instance 3 reconciles in
+    directory order [B; C] and loads k0 -> 1. *)
+Theorem C21_strict_refuted_run :
+  let s0 := init_state [] [([], [CRead; CStale [(0, 1)]]);
+                           ([], [CRead; CStale [(0, 2)]]);
+                           ([], [CRead; CStale [(1, 3)]]);
+                           ([], [CRead])]%N in
+  let sched := map ev0 [0; 0; 0; 0; 0; 0;  1; 1;  2; 2;  1; 1; 1;  2; 2; 2;
+                        3; 3; 3; 3; 3; 3; 3; 3] in
+  let s := run (step true true) sched s0 in
+  Forall excl (states (step true true) sched s0) /\
+  match nth_error (s_procs s) 3 with
+  | Some p => p_pc p = PIdle /\ p_prog p = [] /\ lookup (p_cur p) 0%N = Some 1%N
+  | None => False
+  end.
+Proof.
+  cbv zeta. split.
+  - apply Forall_forall. intros s Hs i j p q Hp Hq Ap Aq.
+    vm_compute in Hs.
+    repeat (destruct Hs as [<-|Hs];
+            [repeat (destruct i as [|i]; try discriminate; simpl in Hp; try (inversion Hp; subst p; clear Hp));
+             repeat (destruct j as [|j]; try discriminate; simpl in Hq; try (inversion Hq; subst q; clear Hq));
+             try reflexivity; try discriminate|]).
+    destruct Hs.
+  - vm_compute. repeat split.
+Qed.
+
 (* ------------------------------------------------------------------ checker *)
 (** Meaning of the two list checks the boolean checker applies to the lookups the REAL table
     returned: every required key is present; every value present was written by some save. *)
@@ -184,3 +246,5 @@ Print Assumptions C21_old_code_refuted.
 Print Assumptions C21_overlap_refuted.
 Print Assumptions C21_squash_same_lookup.
 Print Assumptions C21_codec_roundtrip.
+Print Assumptions C21_causal_max_wins.
+Print Assumptions C21_strict_refuted.
